@@ -380,6 +380,11 @@ fn minimise_c11(rf: &ReplayFile) -> ReplayFile {
             c.order.clear();
             cands.push(c);
         }
+        for i in 0..sc.prelude.len() {
+            let mut c = sc.clone();
+            c.prelude.remove(i);
+            cands.push(c);
+        }
         for i in 0..sc.ops_c.len() {
             let mut c = sc.clone();
             c.ops_c.remove(i);
